@@ -130,3 +130,119 @@ func checkHistories(ctx *context, ag *aggregate, kind string, build func(h *hist
 	ag.counters["history_ops_checked_offline"] += int64(opsN)
 	ag.hist = nil
 }
+
+// ---- C09: frame allocator --------------------------------------------------
+// op = [client, kind, frame, call, return, out]; kind 0 alloc, 1 free(own), 2 free(unmanaged);
+// out 0 ok, 1 OOM, 2 not managed, 3 double free
+
+type frameIn struct {
+	frame int64
+	alloc bool
+}
+
+var frameModel = porcupine.Model{
+	Partition: func(history []porcupine.Operation) [][]porcupine.Operation {
+		m := map[int64][]porcupine.Operation{}
+		var keys []int64
+		for _, o := range history {
+			k := o.Input.(frameIn).frame
+			if _, ok := m[k]; !ok {
+				keys = append(keys, k)
+			}
+			m[k] = append(m[k], o)
+		}
+		out := make([][]porcupine.Operation, 0, len(keys))
+		for _, k := range keys {
+			out = append(out, m[k])
+		}
+		return out
+	},
+	Init: func() interface{} { return false }, // held?
+	Step: func(state, input, output interface{}) (bool, interface{}) {
+		held := state.(bool)
+		if input.(frameIn).alloc {
+			return !held, true // a frame is handed out only while nobody holds it
+		}
+		return held, false // FreeFrame(f) -> nil only for a held frame
+	},
+	Equal: func(a, b interface{}) bool { return a.(bool) == b.(bool) },
+	DescribeOperation: func(input, output interface{}) string {
+		in := input.(frameIn)
+		if in.alloc {
+			return fmt.Sprintf("Alloc->%#x", in.frame)
+		}
+		return fmt.Sprintf("Free(%#x)->nil", in.frame)
+	},
+}
+
+type frameHist struct {
+	Kind    string    `json:"kind"`
+	Idx     int       `json:"idx"`
+	Ops     [][]int64 `json:"ops"`
+	Managed []int64   `json:"managed"`
+}
+
+func postFrameHistories(ctx *context, ag *aggregate) {
+	// OOM rule first (needs the raw lines), then per-frame linearizability.
+	oomChecked, oomViol := 0, 0
+	for _, raw := range ag.hist {
+		var h frameHist
+		if json.Unmarshal(raw, &h) != nil || h.Kind != "frames" {
+			continue
+		}
+		// possibly-held intervals per frame: [alloc.call, matching free.return]
+		type iv struct{ from, to int64 }
+		heldIv := map[int64][]iv{}
+		open := map[[2]int64]int64{} // (client, frame) -> alloc.call
+		for _, o := range h.Ops { // ops are grouped per client in program order
+			cl, kind, fr, call, ret, out := o[0], o[1], o[2], o[3], o[4], o[5]
+			if kind == 0 && out == 0 {
+				open[[2]int64{cl, fr}] = call
+			} else if kind == 1 {
+				if c0, ok := open[[2]int64{cl, fr}]; ok {
+					heldIv[fr] = append(heldIv[fr], iv{c0, ret})
+					delete(open, [2]int64{cl, fr})
+				}
+			}
+		}
+		for k, c0 := range open {
+			heldIv[k[1]] = append(heldIv[k[1]], iv{c0, 1 << 62})
+		}
+		for _, o := range h.Ops {
+			if o[1] != 0 || o[5] != 1 {
+				continue
+			}
+			oomChecked++
+			call, ret := o[3], o[4]
+			for _, f := range h.Managed {
+				free := true
+				for _, v := range heldIv[f] {
+					if v.from <= ret && v.to >= call {
+						free = false
+						break
+					}
+				}
+				if free {
+					oomViol++
+					hp := filepath.Join(ctx.verif, "evidence", "replay", fmt.Sprintf("%s-history-%d.json", ctx.p.id, h.Idx))
+					os.MkdirAll(filepath.Dir(hp), 0755)
+					os.WriteFile(hp, raw, 0644)
+					ag.violations = append(ag.violations, violation{Sig: "oom-while-frame-free", Idx: h.Idx, Run: "main",
+						Detail: map[string]interface{}{"what": fmt.Sprintf("AllocFrame by caller %d (stamps %d..%d) reported out-of-memory although frame %#x was free for the whole duration of the call (a freed frame was lost)", o[0], call, ret, f), "history_file": hp}})
+					break
+				}
+			}
+		}
+	}
+	ag.counters["oom_replies_checked_against_oom_rule"] += int64(oomChecked)
+	ag.counters["oom_rule_violations"] += int64(oomViol)
+	checkHistories(ctx, ag, "frames", func(h *histLine) (porcupine.Model, []porcupine.Operation) {
+		ops := make([]porcupine.Operation, 0, len(h.Ops))
+		for _, o := range h.Ops {
+			if (o[1] == 0 || o[1] == 1) && o[5] == 0 {
+				ops = append(ops, porcupine.Operation{ClientId: int(o[0]), Input: frameIn{o[2], o[1] == 0}, Call: o[3], Return: o[4]})
+			}
+		}
+		return frameModel, ops
+	})
+}
